@@ -58,7 +58,7 @@ def _group1(msg: str) -> BaseException:
 FAIL_CLASSES = {"SimError": SimError, "SimLookup": SimLookup, "SimTimeout": SimTimeout, "group1": _group1}
 
 NAME = "components"
-PROPS = ("C05", "C06", "C07", "C14", "C02", "C12", "C18")
+PROPS = ("C05", "C06", "C07", "C14", "C02", "C12", "C18", "C03", "C09", "C11")
 RT = compreg.RTYPES
 
 
@@ -129,6 +129,21 @@ def ext_tree(n: dict) -> dict:
 # start_component(SubRoot, {"sid": ...}, timeout=...).  The nested call is a start-up of its
 # own: its own watchdog, its own ComponentStartError (path relative to *its* root).  When
 # the component lets that error out, the outer call has to wrap it like any other failure.
+class ST0:  # what nested sub-trees publish (under the default name)
+    pass
+
+
+class ST1:
+    pass
+
+
+class STV:
+    pass
+
+
+SUBT = {"s0": ST0, "s1": ST1, "v0": STV}
+
+
 class SubRoot(Component):
     def __init__(self, sid: str) -> None:
         self.sid = sid
@@ -144,7 +159,15 @@ class SubRoot(Component):
         await compreg.CURRENT.sub_phase(self.sid, "", "prepare")
 
     async def start(self) -> None:
-        await compreg.CURRENT.sub_phase(self.sid, "", "start")
+        h = compreg.CURRENT
+        await h.sub_phase(self.sid, "", "start")
+        spec = h.subspecs[self.sid]
+        if spec.get("pub") and spec.get("fail") != "start":
+            # the nested root publishes under the default name: "default" it is - the alias
+            # of whichever component made the nested call has nothing to do with it
+            add_resource(h.val(f"sub_{self.sid}"), "default", [SUBT[self.sid]])
+            c = Context()
+            h.sim.log("sub_pub", sid=self.sid, parent_is_real=c.parent is h.real, sees_own=SUBT[self.sid] in [t for t in SUBT.values() if c.get_resources(t)])
 
 
 class SubKid(Component):
@@ -420,6 +443,8 @@ class H:
                 await self.childctx(path, phase)
             elif op == "sub":
                 await self.sub(a[1], path, phase)
+            elif op == "tf":
+                await self.tf(a[1], path)
             elif op == "late_add":
                 # declaring a child once start-up is under way is refused (the whole
                 # hierarchy exists before any prepare()/start() runs)
@@ -621,6 +646,16 @@ class H:
             try:
                 c = current_context()
                 sim.log("svc_start", svc=name, parent_is_real=c.parent is h.real, fresh=c is not h.real)
+                if spec.get("own_td") is not None:
+                    # a teardown callback of the task's OWN context that takes a while: the
+                    # task is not finished before this has finished
+
+                    async def own_td() -> None:
+                        sim.log("svc_own_td", svc=name, what="start")
+                        await anyio.sleep(spec["own_td"])
+                        sim.log("svc_own_td", svc=name, what="done")
+
+                    c.add_teardown_callback(own_td)
                 await sim.pause(0, spec.get("delay", 0.0))
                 task_status.started(name)
                 if spec.get("later_sub"):
@@ -650,6 +685,30 @@ class H:
             ret = await start_service_task(body, name)
         sim.log("svc_reg", svc=name, path=path, ret=ret)
 
+    async def tf(self, spec: dict, path: str) -> None:
+        """A component starts a background task factory and hands it a task that is still
+        running when the calling context is left: teardown waits for it, never cancels it."""
+        sim = self.sim
+        name = spec["name"]
+        h = self
+        from asphalt.core import start_background_task_factory
+
+        factory = await start_background_task_factory()
+
+        async def job() -> None:
+            c = current_context()
+            sim.log("tf_task_start", tf=name, fresh=c is not h.real, grandparent_is_real=c.parent is not None and c.parent.parent is h.real)
+            try:
+                await h.block_ended.wait()
+                await anyio.sleep(spec.get("tail", 1.0))
+                sim.log("tf_task_end", tf=name, how="done")
+            except BaseException as e:
+                sim.log("tf_task_end", tf=name, how="cancelled" if is_cancel(e) else f"exc:{type(e).__name__}", block_ended=h.block_ended.is_set())
+                raise
+
+        factory.start_task_soon(job, name)
+        sim.log("tf_reg", tf=name, path=path)
+
     async def childctx(self, path: str, phase: str) -> None:
         """A plain Context() created inside a component phase (C02 / C12 clauses)."""
         sim = self.sim
@@ -669,10 +728,23 @@ class H:
                 break
         async with c:
             inside = current_context() is c
+        from asphalt.core._component import ComponentContext as _CC
+        from asphalt.core import Event as _Ev
+        from asphalt.core import UnboundSignal as _Unb
+
+        try:
+            _CC.resource_added.dispatch(_Ev())
+            cls_level = "accepted"
+        except _Unb:
+            cls_level = "UnboundSignal"
+        except BaseException as e:  # noqa: BLE001
+            cls_level = type(e).__name__
         sim.log(
             "childctx",
             path=path,
             phase=phase,
+            sig_own=cur.resource_added is not self.real.resource_added and cur.resource_added is cur.resource_added,
+            sig_cls_level=cls_level,
             parent_is_real=c.parent is self.real,
             parent_is_component_ctx=c.parent is cur,
             views_equal=views_equal,
@@ -939,6 +1011,9 @@ async def h_post(h: H, sim: Sim, rnd: int) -> None:
                         raise
                     out = f"exc:{type(e).__name__}"
                 sim.log("post_lookup", rid=spec["rid"], path=path, want_name=want, names=present_under, out=out, val=val, fac=fac, round=rnd)
+    for _p, _ph, sp_ in all_subs(h.plan):
+        if sp_.get("pub") and any(r[4] == "sub_pub" and r[5]["sid"] == sp_["sid"] for r in sim.trace):
+            sim.log("sub_pub_names", sid=sp_["sid"], names=sorted(h.real.get_resources(SUBT[sp_["sid"]])), round=rnd)
     # a plain context lookup of something nobody published never waits
     step0 = sim.step
     try:
@@ -1181,6 +1256,7 @@ def oracle(sim: Sim, plan: dict) -> list[dict]:
             missing = sorted(set(expect_created) - set(seen_paths))
             dup = sorted({p for p in seen_paths if seen_paths.count(p) > 1})
             v("C14.tree", "nodes", f"components constructed {sorted(seen_paths)}; expected {sorted(expect_created)} (extra {extra}, missing {missing}, duplicated {dup})")
+            v("C05.eager", "hierarchy", f"components constructed {sorted(seen_paths)} (round {rnd}); the configuration asks for {sorted(expect_created)} (extra {extra}, missing {missing}, duplicated {dup})")
             if dup:
                 v("C05.once", "init_twice", f"components constructed more than once: {dup}")
         for r in inits:
@@ -1606,6 +1682,9 @@ def oracle(sim: Sim, plan: dict) -> list[dict]:
                     if run is None:
                         continue
                     rule = "C05.ownership" if sc_end[4] == "sc_return" else "C07.ownership"
+                    own_done = next((x for x in tr if x[4] == "svc_own_td" and x[5]["svc"] == sr[5]["svc"] and x[5]["what"] == "done"), None)
+                    if tdr[0] < sr[0] and own_done is not None and run[0] < own_done[0]:
+                        v(rule, "callback_before_service_context_end", f"teardown callback {tdr[5]['td']} (registered before service task {sr[5]['svc']} was up) ran before that task's own context had been torn down")
                     if tdr[0] < sr[0] and run[0] < se[0]:
                         v(rule, "callback_before_service_end", f"teardown callback {tdr[5]['td']} (registered before service task {sr[5]['svc']} was up) ran before that task had ended")
             svcs = [r[5]["svc"] for r in tr if r[4] == "svc_start"]
@@ -1618,6 +1697,27 @@ def oracle(sim: Sim, plan: dict) -> list[dict]:
                 if r[4] == "svc_start" and not (r[5]["parent_is_real"] and r[5]["fresh"]):
                     v("C12.task", "svc_parent", f"service task {r[5]['svc']} context: {r[5]}")
         for r in tr:
+            if r[4] == "sub_pub_names" and r[5]["names"] != ["default"]:
+                v("C14.remap", "nested_inherits_alias", f"the root of a nested start_component() published under 'default'; in the calling context it is registered as {r[5]['names']}")
+                v("C06.lost_wakeup", "nested_default_renamed", f"a resource published under 'default' by a nested tree is registered as {r[5]['names']}: whoever waits for it under 'default' is never released")
+            if r[4] == "sub_pub":
+                if not r[5]["parent_is_real"]:
+                    v("C12.parent", "nested_component_phase", f"Context() created in start() of a nested tree's root: its parent is not the context the (outer) start_component was called in ({r[5]})")
+                if not r[5]["sees_own"]:
+                    v("C02.component_parent", "nested_snapshot", f"Context() created in start() of a nested tree's root does not see what that very phase has just published ({r[5]})")
+            if r[4] == "tf_task_start" and not (r[5]["fresh"] and r[5]["grandparent_is_real"]):
+                v("C09.context", "component_factory", f"task of a factory started by a component: {r[5]}")
+            if r[4] == "tf_task_end" and r[5]["how"] != "done" and not sim.aborting:
+                rule_ = "C05.ownership" if sc_end[4] == "sc_return" else "C07.ownership"
+                v("C09.teardown", "cancelled@component_factory", f"task {r[5]['tf']} of a task factory started by a component was still running when the calling context was left and ended {r[5]['how']}: teardown waits for such tasks, it does not cancel them")
+                v(rule_, "factory_task_cancelled", f"task {r[5]['tf']} of a task factory started by a component ended {r[5]['how']} at teardown")
+            if r[4] == "childctx":
+                if r[5].get("sig_own") is False:
+                    v("C11.identity", "component_context_shares_signal", f"the component context of {r[5]['path']} and the calling context share one bound resource_added signal")
+                if r[5].get("sig_cls_level") not in (None, "UnboundSignal"):
+                    v("C11.unbound", "component_context_class", f"ComponentContext.resource_added.dispatch() on the class gave {r[5]['sig_cls_level']}, expected UnboundSignal")
+            if r[4] == "td_run" and str(r[5]["td"]).startswith("rogue_"):
+                v("C03.atomic", "td_of_failed_add_component", f"teardown callback {r[5]['td']} of an add_resource() that a component's call had rejected (ResourceConflict) ran")
             if r[4] == "svc_cancelled" and r[5].get("action") == "none" and not sim.aborting:
                 if any(x[4] == "svc_reg" and x[5]["svc"] == r[5]["svc"] and x[0] < r[0] for x in tr):
                     rule_ = "C05.ownership" if sc_end[4] == "sc_return" else "C07.ownership"
@@ -1759,6 +1859,7 @@ class G:
         self.nt = 0
         self.nw = 0
         self.nrb = 0
+        self.ntf = 0
         self.ntd = 0
         self.nsvc = 0
         self.ndk = 0
@@ -1925,7 +2026,12 @@ class G:
                     if rng.random() < 0.3:
                         sv["action"] = "none"
                         sv["tail"] = rng.choice((0.5, 1.0, 2.0))
+                    if sv.get("action") == "none" and rng.random() < 0.6:
+                        sv["own_td"] = rng.choice((0.25, 0.5, 1.0))
                     acts.append(["svc", sv])
+                elif r < 0.915 and self.ntf < 2 and self.prop in ("C05", "C07", "C09"):
+                    self.ntf += 1
+                    acts.append(["tf", {"name": f"tf{self.ntf}", "tail": rng.choice((0.5, 1.0, 2.0))}])
                 elif r < 0.95:
                     acts.append(["childctx"])
                 elif avail or here:
@@ -2165,6 +2271,19 @@ def gen(rng: random.Random, tier: str, prop: str) -> dict:
         _add_subs(plan, nodes, rng, may_fail=r >= fail_p)
     if prop == "C07" and rng.random() < 0.15:
         _add_later_sub(plan, nodes, rng)
+    if prop in ("C05", "C06", "C12", "C14", "C02", "C07") and r >= fail_p + timeout_p and rng.random() < 0.15:
+        # a component starts a (healthy) private sub-tree whose root publishes under "default"
+        cands = [(p, n, ph) for p, n in nodes for ph in ("prepare", "start") if n.get(ph) is not None]
+        have = {sp["sid"] for _p, _ph, sp in all_subs(plan)}
+        sid = next((x for x in ("s0", "s1") if x not in have), None)
+        if cands and sid:
+            p_, n_, ph_ = rng.choice([c for c in cands if "/" in c[1].get("alias", "")] or cands)
+            n_[ph_].insert(
+                rng.randint(0, len(n_[ph_])),
+                ["sub", {"sid": sid, "d": [rng.choice((0.0, 0.25)), rng.choice((0.0, 0.5)), rng.choice((0.0, 0.25))], "kid": rng.random() < 0.6, "timeout": None, "pub": True}],
+            )
+    if prop == "C05" and "twice" not in plan and r >= fail_p + timeout_p and rng.random() < 0.06:
+        plan["twice"] = True
     if prop in ("C06", "C05", "C18") and rng.random() < 0.15:
         plan["noisy_listener"] = rng.choice((0, 1, 2))
     if prop == "C14":
